@@ -6,6 +6,10 @@ HERE = os.path.dirname(os.path.dirname(os.path.abspath(__file__)))
 TECH = "bounded symbolic execution of the real Go code (go/ssa -> SMT-LIB bit-vectors), z3 decides every assertion/panic/branch; counterexamples replayed natively"
 
 CHECKS = {
+ "C04": dict(
+   text="Handler programs over {9 status codes} x {no body, SetBody, AppendBody x2, SetBodyStream with known length / -1 / LimitedReader, hijacked chunked writer with and without intermediate flush} x {status before/after the body call} x {Connection: close} x {GET, HEAD} (thorough: two in sequence on one connection), with symbolic body bytes, run inside the real Serve loop; the bytes written are decoded by an independent strict response reader and z3 is asked whether status, body bytes, framing or the position where the next response starts can differ from what the handler produced, and whether bodiless responses can carry body bytes or chunked framing.",
+   note="bodies <= 3 bytes (flush thresholds not exercised); strict reader is the harness's own decoder; Date/Server headers disabled",
+   ref="DESIGN.md §4 C04"),
  "C11": dict(
    text="(H1) requests built through the client API - method, symbolic path/query/header-value/body bytes, body as bytes, stream of known length, stream of unknown length (chunked) - are serialised by the real req.Write and decoded by the real hertz server loop; z3 is asked whether method, path, query argument, Host, header field or body can differ, or the pipelined sentinel can fail to be handled. (H2) the real response reader (buffered and streaming) on six response shapes with symbolic body and header bytes returns the same status, field and body, enforces MaxResponseBodySize in buffered mode, leaves the next response intact, and is independent of a split point ranging over every position.",
    note="one open known finding (streaming prefetch reading into the next response when 0 < MaxResponseBodySize < Content-Length); multipart/form bodies, proxy form and HostClient.Do plumbing outside; small bounds (1-2 symbolic bytes per component in quick)",
